@@ -10,7 +10,7 @@ EXPLANATION = ('A real Problem with explicit IndepVarComp outputs, auto-IVC-back
                'indices) is v; every other element of the variable, read in model units, is the same term as before; the value survives '
                'the later phases (final_setup, run_model) unchanged for independent variables; a second overlapping write wins on the '
                'overlap only.')
-BOUNDS = dict(names='absolute IVC output, promoted IVC output, promoted auto-IVC input (1-D and 2-D), absolute input of a connected component (from_src view)',
+BOUNDS = dict(names='absolute IVC output, promoted IVC output, promoted auto-IVC input (1-D and 2-D), the absolute name of an auto-IVC-backed input', values='arrays of the selected shape, or one scalar broadcast over the selection',
               indices='None, int, negative int, slice, reversed slice, int list with negatives, tuple (2-D), om.slicer forms', units='None, declared units, prefixed/affine-related units (m/cm/mm/km/inch, degC/degF/degK)')
 STUBS = ['module-global float pass-through in general_utils/system/units']
 ASSUMPTIONS = ['reals; unit factors are float64 constants (1e-9 margin when a conversion is involved)']
@@ -25,7 +25,7 @@ PHASES = ['pre', 'post_final', 'post_run']
 def harnesses(tier, seed):
     q = tier == 'quick'
     jobs = []
-    names = ['ivc_abs', 'ivc_prom', 'auto', 'auto_shared']
+    names = ['ivc_abs', 'ivc_prom', 'auto', 'auto_shared', 'auto_abs']
     k = 0
     for name in names:
         for ik in IDX:
@@ -43,6 +43,12 @@ def harnesses(tier, seed):
             jobs.append(dict(fn='h_roundtrip', params=dict(name='temp', idx='list', units=u, phase=ph)))
     for ph in PHASES:
         jobs.append(dict(fn='h_two_writes', params=dict(phase=ph)))
+    # the absolute name of an auto-IVC-backed input with a single index, in every phase; a scalar written to several entries
+    for ph in PHASES:
+        jobs.append(dict(fn='h_roundtrip', params=dict(name='auto_abs', idx='int', units=None, phase=ph)))
+        jobs.append(dict(fn='h_roundtrip', params=dict(name='auto_abs', idx='neg', units='cm', phase=ph)))
+        for name, ik in (('auto', 'list3'), ('ivc_abs', 'slice')) if q else (('auto', 'list3'), ('ivc_abs', 'slice'), ('ivc_prom', 'none'), ('auto_abs', 'list'), ('auto_shared', 'rev')):
+            jobs.append(dict(fn='h_roundtrip', params=dict(name=name, idx=ik, units=None if name != 'auto' else 'mm', phase=ph, scalar=True)))
     # batch several cases per worker job
     return jobs
 
@@ -102,7 +108,7 @@ def _problem(ctx):
     return p
 
 
-NAMES = {'ivc_abs': ('ivc.a', 'm', (3,)), 'ivc_prom': ('b', 'm', (3,)), 'auto': ('w', 'm', (3,)), 'auto_shared': ('sh', 'm', (3,)),
+NAMES = {'ivc_abs': ('ivc.a', 'm', (3,)), 'ivc_prom': ('b', 'm', (3,)), 'auto': ('w', 'm', (3,)), 'auto_shared': ('sh', 'm', (3,)), 'auto_abs': ('c3.w', 'm', (3,)),
          'temp': ('ivc.t', 'degC', (3,)), 'mat': ('M', 'm', (2, 3))}
 
 
@@ -123,7 +129,7 @@ def _conv(ctx, val, frm, to):
     return (val + ctx.const(o)) * ctx.const(f)
 
 
-def _roundtrip(ctx, name, idx, units, phase, shape):
+def _roundtrip(ctx, name, idx, units, phase, shape, scalar=False):
     _install(ctx)
     p = _problem(ctx)
     nm, model_units, _ = NAMES[name]
@@ -132,8 +138,13 @@ def _roundtrip(ctx, name, idx, units, phase, shape):
     _advance(p, 'pre', phase)
     probe = np.arange(int(np.prod(shape))).reshape(shape)
     sel = probe[idx] if idx is not None else probe
-    v = ctx.reals('v', np.shape(sel) if np.shape(sel) else 1, -50, 50)
-    vv = v if np.shape(sel) else v[0]
+    if scalar:      # one value written to every selected entry (NumPy broadcasting)
+        v0 = ctx.real('v0', -50, 50)
+        v = ctx.array([v0] * int(np.size(sel))).reshape(np.shape(sel)) if ctx.sym else np.full(np.shape(sel), float(v0))
+        vv = v0
+    else:
+        v = ctx.reals('v', np.shape(sel) if np.shape(sel) else 1, -50, 50)
+        vv = v if np.shape(sel) else v[0]
     kw = {}
     if units is not None:
         kw['units'] = units
@@ -165,8 +176,8 @@ def _roundtrip(ctx, name, idx, units, phase, shape):
     ctx.observe('full', full)
 
 
-def h_roundtrip(ctx, name, idx, units, phase):
-    _roundtrip(ctx, name, IDX[idx], units, phase, (3,))
+def h_roundtrip(ctx, name, idx, units, phase, scalar=False):
+    _roundtrip(ctx, name, IDX[idx], units, phase, (3,), scalar=scalar)
 
 
 def h_roundtrip2d(ctx, idx, phase, units):
